@@ -138,6 +138,7 @@ def _run_stream(argv, env, timeout, cwd=None):
 def run_shard(exe, sub, casefile, resultfile, pre_args, post_args, env, timeout, ncases):
     """Run one driver process over casefile, resuming after crashes.  argv = exe sub casefile *pre resultfile *post start"""
     crashes = []
+    timed_out = set()
     start = 0
     guard = 0
     stderr_all = []
@@ -152,7 +153,13 @@ def run_shard(exe, sub, casefile, resultfile, pre_args, post_args, env, timeout,
             break
         cur = int(begins[-1]) if begins else start
         if to:
-            crashes.append(Crash(cur, None, 'timeout', 'watchdog', 'process exceeded %ds wall' % timeout, 'hang'))
+            # a wall-clock watchdog is not a verdict on a loaded machine: the case is tried once more (the shard resumes at it);
+            # only a second firing on the same case is reported as a hang
+            if cur not in timed_out:
+                timed_out.add(cur)
+                start = cur
+                continue
+            crashes.append(Crash(cur, None, 'timeout', 'watchdog', 'process exceeded %ds wall twice on this case' % timeout, 'hang'))
         else:
             tr = triage(err, rc)
             if tr is None:
@@ -216,6 +223,9 @@ def run_cases(flavour, sub, cases, tag, pre_args_fn=None, post_args=None, env=No
 
 
 def run_tool(exe, args, env=None, timeout=120, cwd=None, stdin=None):
+    """one process; a watchdog firing is re-tried once before it is reported (a timeout is a 'hang' only if it reproduces)"""
     e = env_for(env)
     rc, out, err, to = _run_stream([exe] + args, e, timeout, cwd)
+    if to:
+        rc, out, err, to = _run_stream([exe] + args, e, timeout, cwd)
     return rc, out, err, to
